@@ -624,15 +624,13 @@ Proof.
   - cbn [fst snd]. rewrite S1, S2. repeat split; try congruence; intros; discriminate.
   - destruct la.
     + rewrite S1, G1, Hl. cbn [fst snd]. unfold upd. cbn. rewrite S1, S2, G1.
-      repeat split; try congruence.
-      * intros. apply aget_aset_same.
-      * intros; discriminate.
-      * intros; discriminate.
+      repeat split; try congruence; try (intros; discriminate).
+      intros. apply aget_aset_same.
     + cbn [fst snd]. rewrite S1, S2. repeat split; try congruence; intros; discriminate.
 Qed.
 
 Lemma catch_up_index_wf : forall l a b rest, l = a :: b :: rest -> log_wf l -> eidx b + 1 = first_idx l + 2.
-Proof. intros l a b rest -> H. unfold log_wf in H. cbn in H. lia. Qed.
+Proof. intros l a b rest -> H. unfold log_wf in H. cbn in *. destruct H as (_ & H & _). lia. Qed.
 
 (* C05_snapshot_transfer_completes: an uninterrupted transfer, sender to receiver, installs the
    sender's blob after ceil(len/chunk) + 1 pieces *)
@@ -650,7 +648,9 @@ Proof.
   intros e x sl sf b Hch Hp Hs Hst Hx. cbv zeta.
   destruct (sender_transfer e x sl b Hch Hp Hs Hst Hx (Datatypes.S (N.to_nat (nchunks (blob_len b) (chunk (cf e)))))
               ltac:(lia)) as [H1 H2].
-  rewrite H1. rewrite transfer_length. rewrite recv_transfer by auto. cbn [fst snd].
-  unfold set_sr, upd; cbn. repeat split; auto.
-  destruct H2 as (tr & E1 & E2 & _). rewrite E1. exact E2.
+  destruct (sender_run (Datatypes.S (N.to_nat (nchunks (blob_len b) (chunk (cf e))))) e x sl) as [s' ps].
+  cbn [fst snd] in *. subst ps.
+  rewrite transfer_length. rewrite recv_transfer by auto. cbn [fst snd].
+  destruct H2 as (tr & E1 & E2 & _). rewrite E1.
+  unfold set_sr, set_trans, upd; cbn. repeat split; auto.
 Qed.
